@@ -7,6 +7,8 @@ coq/Model/C18_LockSteps.v):
     XAcq l / XRel l      self.l.acquire() ... try/finally self.l.release(), or `with self.l:`
     XRead a Ref|Obj      the binding self.a / the object behind it is read
     XWrite a Ref|Obj     self.a = ... / self.a[...] = ..., del self.a[...], self.a.unknown_method()
+    XClock               time.time() (any call into the time/datetime modules): a read of shared state
+                         written by the environment; must happen at the linearization point
     XLocal               everything else a statement does (locals, arguments, external functions)
 
 Conventions (conservative: when in doubt an access is reported, and reported as a write):
@@ -42,6 +44,10 @@ CLASSES = [
     ('Python_RSAKey', [('tlslite/utils/python_rsakey.py', 'Python_RSAKey')],
      ['_rawPrivateKeyOp']),
 ]
+
+# calls that read a clock: any function of these modules, or these bare names
+CLOCK_MODULES = {'time', 'datetime'}
+CLOCK_FUNCTIONS = {'time', 'monotonic', 'perf_counter', 'time_ns', 'monotonic_ns'}
 
 # methods of contained objects known not to modify them
 PURE_METHODS = {'keys', 'get', 'items', 'values', '__contains__', 'copy'}
@@ -141,6 +147,10 @@ class MethodExtractor:
 
     def call(self, e):
         f = e.func
+        if (isinstance(f, ast.Attribute) and isinstance(f.value, ast.Name) and f.value.id in CLOCK_MODULES) or \
+                (isinstance(f, ast.Name) and f.id in CLOCK_FUNCTIONS):
+            # a clock read: shared state written by the environment (see XClock in Model/C18_LockSteps.v)
+            return self.args(e) + [('C',)]
         if isinstance(f, ast.Attribute):
             inner = self_attr(f.value)
             if inner is not None:                       # self.a.m(...)
@@ -418,6 +428,8 @@ def coq_step(x):
         return 'XRead "%s" %s' % (x[1], x[2])
     if x[0] == 'W':
         return 'XWrite "%s" %s' % (x[1], x[2])
+    if x[0] == 'C':
+        return 'XClock'
     return 'XLocal'
 
 
